@@ -637,17 +637,22 @@ func (s *Sim) TraceHash() string {
 // the current run, and returns the panic value of an end-of-bubble deadlock (or
 // any other panic that escaped the scheduler goroutine), if any.
 func Bubble(t TestingT, s *Sim, body func()) (panicked interface{}) {
-	defer func() {
-		cur.Store(nil)
-		if r := recover(); r != nil {
-			panicked = r
-		}
-	}()
-	runBubble(t, func() {
-		s.pub = make(chan gmsg, 1024)
-		cur.Store(s)
-		body()
-		cur.Store(nil)
+	// The bubble gets a sub-test of its own: when the race detector reported
+	// during the bubble, synctest.Test calls FailNow on the T it was given,
+	// which must not end the worker's loop over seeds.
+	t.Run("b", func(st TestingT) {
+		defer func() {
+			cur.Store(nil)
+			if r := recover(); r != nil {
+				panicked = r
+			}
+		}()
+		runBubble(st, func() {
+			s.pub = make(chan gmsg, 1024)
+			cur.Store(s)
+			body()
+			cur.Store(nil)
+		})
 	})
-	return nil
+	return panicked
 }
